@@ -2,6 +2,7 @@
 From Coq Require Import ZArith NArith List Bool String.
 From DM Require Import Base.PyVal Spec.Nf Spec.Table Spec.Ops Proofs.TableFacts Proofs.OpFacts.
 From DM Require Import Spec.SeriesEnc Proofs.SeriesEncFacts.
+From DM Require Import Model.LTable Gen.KCore Model.Core Proofs.CoreRefine Proofs.ConcatRefine.
 Import ListNotations.
 Open Scope string_scope.
 
@@ -48,6 +49,19 @@ Proof. vm_compute. repeat split. Qed.
 Example C09_type_mismatch :
   snd (step (run [ONew 1; OSetColKind 0 "x" KFloat; ONew 1; OSetColKind 1 "x" KInt] w0) (OConcat 0 1)) = Err TypeError.
 Proof. vm_compute. reflexivity. Qed.
+
+(* DataMatrix.__lshift__ as the code does it -- a new table of k_concat_len rows; every column created with default cells
+   and filled through the slices [:k_concat_left_stop] and [k_concat_right_start:], a same-named column of another type
+   refused (result length and slice bounds regenerated from the source, loop skeleton pinned) -- computes the L0
+   concatenation for every pair of tables satisfying the representation invariant *)
+Theorem C09_l1_concat_refines : forall a b nf,
+  inv_b a = true -> inv_b b = true ->
+  match concat_l a b nf with
+  | Ok r => concat_tables (abs a) (abs b) nf = Ok (abs r)
+  | Raise e => concat_tables (abs a) (abs b) nf = Raise e
+  end.
+Proof. exact concat_refines. Qed.
+Print Assumptions C09_l1_concat_refines.
 
 (* Series columns of different depth (Spec/SeriesEnc.v): the union of the pseudo-columns with NaN defaults IS the
    padding with NaN to the larger depth; the operands keep their depths (frame) *)
